@@ -127,6 +127,8 @@ def run(ctx):
     ctx.assumptions += ["Python scalar ==/< and math.isnan/np.isnat are the trusted base of the abstraction alpha",
                         "bounded: length and number of distinct values as stated in rule"]
     run_cases(ctx, seqs, PALETTES)
+    from props import vmisc
+    vmisc.run_section(ctx, seqs)
 
 
 def replay(ctx, rp):
